@@ -508,7 +508,7 @@ func ruleLog3(c *Ctx, r *Reporter) {
 	}
 	mut := collectionMutators(c)
 	n := 0
-	allInstrs(clean, func(in ssa.Instruction) {
+	coneInstrs(clean, func(in ssa.Instruction) {
 		call, ok := in.(*ssa.Call)
 		if !ok {
 			return
